@@ -1,0 +1,26 @@
+//go:build verif
+
+package mpmc
+
+// VerifState is a snapshot of the queue's internal state for the verification
+// harness. It must only be taken while no goroutine is between two scheduling
+// points (all of them parked at a verifhook.Yield or blocked).
+type VerifState struct {
+	Head, Tail  int64
+	Capacity    int
+	Extended    int
+	Seq         []int64
+	FullTokens  int
+	EmptyTokens int
+	Done        bool
+}
+
+// VerifSnapshot returns the internal state without taking the queue's lock.
+func (p *Queue[T]) VerifSnapshot() VerifState {
+	s := VerifState{Head: p.head.Load(), Tail: p.tail.Load(), Capacity: p.capacity, Extended: p.extended,
+		FullTokens: len(p.full), EmptyTokens: len(p.empty), Done: p.done.Load()}
+	for i := range p.data {
+		s.Seq = append(s.Seq, p.data[i].Sequence.Load())
+	}
+	return s
+}
